@@ -129,11 +129,117 @@ func runC08(c *Ctx) {
 						}
 					}
 				}
-				c.Check(ok && inGenLoop, "C08.5-divide-collapse-pairing", FuncName(w.Fn)+"|isDivided=false←delete(children)", p.Pos(InstrPos(w.Instr)), "collapsing a range is preceded on every path by deleting its genTupleRanges children from hashRanges.ranges (no stale sub-range answers)")
+				// helper form: the store is preceded on every path by a call of a function that
+				// deletes, unconditionally, every genTupleRanges child of its argument from the
+				// table and descends into divided children (no stale grandchildren)
+				detail := "collapsing a range is preceded on every path by deleting its genTupleRanges children from hashRanges.ranges (no stale sub-range answers)"
+				if !(ok && inGenLoop) {
+					for _, h := range ldFuncs {
+						if h == w.Fn || h.Signature.Recv() == nil {
+							continue
+						}
+						delInLoop, recurses := false, false
+						for _, l := range Loops(h) {
+							if l.Test == nil {
+								continue
+							}
+							lc, isCall := l.TestAtom.Y.(*ssa.Call)
+							if !isCall || len(lc.Call.Args) != 1 || !valueIsResultOf(lc.Call.Args[0], CalleeFn(gen)) {
+								continue
+							}
+							for b := range l.Blocks {
+								for _, in := range b.Instrs {
+									if isDel(in) {
+										uncond := true
+										for _, latch := range l.Latches {
+											if !b.Dominates(latch) {
+												uncond = false
+											}
+										}
+										if uncond {
+											delInLoop = true
+										}
+									}
+									if cc, isC := in.(*ssa.Call); isC && CalleeFn(h)(&cc.Call) {
+										recurses = true
+									}
+								}
+							}
+						}
+						if !delInLoop {
+							continue
+						}
+						by, _ := MustPass(w.Fn, nil, CutAtCall(CalleeFn(h)), []ssa.Instruction{w.Instr}, nil)
+						if len(by) == 0 {
+							ok, inGenLoop = true, true
+							if !recurses {
+								ok = false
+								detail = FuncName(h) + " deletes the children of the collapsing range but does not descend into divided children: their sub-ranges stay in the table"
+							} else {
+								detail = "collapsing a range is preceded on every path by " + FuncName(h) + ", which deletes every genTupleRanges child and descends into divided ones"
+							}
+						}
+					}
+				}
+				c.Check(ok && inGenLoop, "C08.5-divide-collapse-pairing", FuncName(w.Fn)+"|isDivided=false←delete(children)", p.Pos(InstrPos(w.Instr)), detail)
 			}
 		}
 		_ = n
 		c.Min("C08.5-divide-collapse-pairing", 3)
+	}
+
+	// ---- C08.6 a removal compares EVERY range it decrements with the threshold. A freshly filled
+	// index keeps a (non-top) range flat exactly when it holds <= compareThreshold elements; a
+	// removal that only tests the lowest divided range leaves an outer range divided when it falls
+	// to the threshold together with its only populated child (finding F19): its hash is then the
+	// hash of child hashes instead of the flat element hash — a function of the history.
+	{
+		elementsF := p.Field(ld + ":hashRange.elements")
+		ctF := p.Field(ld + ":hashRanges.compareThreshold")
+		c.Fn(FuncName(remEl))
+		var descent *Loop
+		for _, l := range Loops(remEl) {
+			for b := range l.Blocks {
+				for _, in := range b.Instrs {
+					if st, ok := in.(*ssa.Store); ok {
+						if fa, ok := st.Addr.(*ssa.FieldAddr); ok && FieldOf(fa) == elementsF {
+							descent = l
+						}
+					}
+				}
+			}
+		}
+		inLoop, outside := 0, 0
+		for _, b := range remEl.Blocks {
+			if len(b.Instrs) == 0 {
+				continue
+			}
+			iff, ok := b.Instrs[len(b.Instrs)-1].(*ssa.If)
+			if !ok {
+				continue
+			}
+			a := AtomOf(iff)
+			if a.Y == nil {
+				continue
+			}
+			if (IsLoadOfField(a.X, elementsF) && IsLoadOfField(a.Y, ctF)) || (IsLoadOfField(a.Y, elementsF) && IsLoadOfField(a.X, ctF)) {
+				if descent != nil && descent.Blocks[b] {
+					inLoop++
+				} else {
+					outside++
+				}
+			}
+		}
+		bad := ""
+		switch {
+		case descent == nil:
+			bad = "removeElement has no descent loop that decrements the element counters (rule table out of date)"
+		case inLoop == 0 && outside > 0:
+			bad = "the threshold is compared only after the descent, for the lowest divided range: an outer divided range that falls to the threshold with the same removal stays divided, and its hash then depends on the history"
+		case inLoop == 0:
+			bad = "removeElement never compares a decremented range with compareThreshold: ranges are never collapsed"
+		}
+		c.Check(bad == "", "C08.6-collapse-every-level", FuncName(remEl)+"|threshold test inside the descent", p.Pos(remEl.Pos()), orDefault(bad, "every range decremented on the way down is compared with compareThreshold"))
 	}
 
 	// ---- C08.3b a mutated range is always left marked dirty (else its advertised hash is stale)
